@@ -212,7 +212,6 @@ func VerifC18Toggle() {
 		return
 	}
 	rt.Reach("toggled")
-	rt.Known("H2b-toggle-initialises-the-old-client", true)
 	sameTypeInstalled(c, cons, "L2-toggle")
 	w.installedIs(c, cons, "L2-toggle")
 }
@@ -248,7 +247,6 @@ func VerifC18UpdateTSS() {
 	k.SetClientState(ctx, chain, &tsstypes.ClientState{TssAddress: rt.Str("tssAddress"), Pubkey: rt.Bytes("pubkey"), Threshold: rt.U64("threshold")})
 	hdr := &tsstypes.Header{TssAddress: rt.Str("hdr.tssAddress"), Pubkey: rt.Bytes("hdr.pubkey"), Threshold: rt.U64("hdr.threshold")}
 	var err error
-	rt.Known("H2c-tss-update-panics-on-nil-height", true)
 	rt.Reach("tss-update-attempted")
 	if rt.NoPanic("L5-tss-update-does-not-panic", func() { err = k.UpdateClient(ctx, chain, hdr) }) {
 		return
